@@ -4,6 +4,7 @@
   `isNegative`, and the signed loops `II.subLoop_spec`, `II.negLoop_spec`.
 -/
 import Bnum.Lemmas.AddSub
+import Bnum.Spec.Arith
 
 namespace Bnum
 
@@ -474,4 +475,660 @@ theorem negLoop_spec {w : Nat} (hw : 2 ≤ w) : ∀ (n : Nat) (a : List Nat), WF
     | [_], ha => exact absurd ha.1 (by simp)
 
 end II
+
+/-! ### Bool / decide glue -/
+theorem bool_eq_decide {f : Bool} {P : Prop} [Decidable P] (h : f = true ↔ P) : f = decide P := by
+  cases f <;> simp_all
+
+theorem xor_decide {P Q R : Prop} [Decidable P] [Decidable Q] [Decidable R]
+    (h : ((P ∧ ¬Q) ∨ (¬P ∧ Q)) ↔ R) : (decide P ^^ decide Q) = decide R := by
+  by_cases hP : P <;> by_cases hQ : Q <;> by_cases hR : R <;> simp_all
+
+theorem not_decide {P R : Prop} [Decidable P] [Decidable R] (h : ¬P ↔ R) :
+    (!decide P) = decide R := by
+  by_cases hP : P <;> by_cases hR : R <;> simp_all
+
+theorem isNegative_eq_decide {w n : Nat} {x : List Nat} (hw : 1 ≤ w) (hn : 1 ≤ n) (hx : WF w n x) :
+    isNegative w x = decide (S w x < 0) := bool_eq_decide (isNegative_iff' hw hn hx)
+
+/-! ### case descriptions of the wraps (make each operation an `omega` problem) -/
+theorem wrapU_cases_add {m : Nat} {t : Int} (h0 : 0 ≤ t) (h1 : t < 2 * m) :
+    (t < m ∧ (wrapU m t : Int) = t) ∨ (m ≤ t ∧ (wrapU m t : Int) = t - m) := by
+  by_cases h : t < m
+  · exact Or.inl ⟨h, wrapU_of_rep ⟨h0, h⟩⟩
+  · refine Or.inr ⟨by omega, ?_⟩
+    have := wrapU_add_mul (m := m) t (-1)
+    rw [← this, show t + -1 * (m : Int) = t - m by ring]
+    exact wrapU_of_rep ⟨by omega, by omega⟩
+
+theorem wrapU_cases_sub {m : Nat} {t : Int} (h0 : -(m : Int) ≤ t) (h1 : t < m) :
+    (0 ≤ t ∧ (wrapU m t : Int) = t) ∨ (t < 0 ∧ (wrapU m t : Int) = t + m) := by
+  by_cases h : 0 ≤ t
+  · exact Or.inl ⟨h, wrapU_of_rep ⟨h, h1⟩⟩
+  · refine Or.inr ⟨by omega, ?_⟩
+    have := wrapU_add_mul (m := m) t 1
+    rw [← this, show t + 1 * (m : Int) = t + m by ring]
+    exact wrapU_of_rep ⟨by omega, by omega⟩
+
+theorem wrapS_cases {m h : Nat} {t : Int} (hm : m = 2 * h) (hp : 0 < m)
+    (h0 : -(3 * h : Int) ≤ t) (h1 : t < 3 * h) :
+    (repS m t ∧ wrapS m t = t) ∨ ((h : Int) ≤ t ∧ wrapS m t = t - m) ∨
+      (t < -(h : Int) ∧ wrapS m t = t + m) := by
+  by_cases hr : repS m t
+  · exact Or.inl ⟨hr, wrapS_of_rep hp hr⟩
+  · unfold repS at hr
+    by_cases hge : (h : Int) ≤ t
+    · exact Or.inr (Or.inl ⟨hge, wrapS_of_rep_sub hp (by unfold repS; omega)⟩)
+    · exact Or.inr (Or.inr ⟨by omega, wrapS_of_rep_add hp (by unfold repS; omega)⟩)
+
+theorem exists_of_mod {u x m : Nat} (h : u = x % m) : ∃ k : Int, (x : Int) = u + k * m := by
+  refine ⟨(x / m : Nat), ?_⟩
+  subst h
+  have := Nat.mod_add_div x m
+  have : ((x % m : Nat) : Int) + (m : Int) * ((x / m : Nat) : Int) = x := by exact_mod_cast this
+  linarith [Int.mul_comm (m : Int) ((x / m : Nat) : Int)]
+
+theorem exists_of_emod {u : Nat} {z : Int} {m : Nat} (h : (u : Int) = z % (m : Int)) :
+    ∃ k : Int, z = u + k * m := by
+  refine ⟨z / m, ?_⟩
+  rw [h]
+  have := Int.emod_add_mul_ediv z m
+  linarith [Int.mul_comm (m : Int) (z / m)]
+
+/-- internal shape of an `overflowing_*` result with unsigned result type and exact result `z` -/
+def OvfU (w n : Nat) (p : List Nat × Bool) (z : Int) : Prop :=
+  WF w n p.1 ∧ (U w p.1 : Int) = wrapU (M w n) z ∧ p.2 = decide (¬ repU (M w n) z)
+/-- same, signed result type -/
+def OvfS (w n : Nat) (p : List Nat × Bool) (z : Int) : Prop :=
+  WF w n p.1 ∧ S w p.1 = wrapS (M w n) z ∧ p.2 = decide (¬ repS (M w n) z)
+
+theorem OvfU.flag_iff {w n : Nat} {p : List Nat × Bool} {z : Int} (h : OvfU w n p z) :
+    p.2 = true ↔ ¬ repU (M w n) z := by rw [h.2.2, decide_eq_true_iff]
+theorem OvfS.flag_iff {w n : Nat} {p : List Nat × Bool} {z : Int} (h : OvfS w n p z) :
+    p.2 = true ↔ ¬ repS (M w n) z := by rw [h.2.2, decide_eq_true_iff]
+
+/-! ### unsigned operations -/
+namespace UI
+
+theorem overflowingAdd_spec {w n : Nat} {a b : List Nat} (ha : WF w n a) (hb : WF w n b) :
+    OvfU w n (overflowingAdd w a b) (U w a + U w b) := by
+  obtain ⟨h1, h2⟩ := addLoop_spec n a b false ha hb
+  unfold overflowingAdd
+  have hr := U_lt h1; have hua := U_lt ha; have hub := U_lt hb
+  refine ⟨h1, ?_, ?_⟩
+  · rw [← U_eq_wrapU h1 (k := ((addLoop w a b false).2.toNat : Int))]
+    have : ((U w (addLoop w a b false).1 : Int) + (M w n : Int) * ((addLoop w a b false).2.toNat : Int)
+        = U w a + U w b + (false.toNat : Int)) := by exact_mod_cast h2
+    simp only [Bool.toNat_false, Nat.cast_zero, add_zero] at this
+    linear_combination (-1 : Int) * this
+  · apply bool_eq_decide
+    unfold repU
+    cases hf : (addLoop w a b false).2 <;> rw [hf] at h2 <;>
+      simp only [Bool.toNat_false, Bool.toNat_true, Nat.mul_zero, Nat.mul_one, Nat.add_zero] at h2 <;>
+      simp only [Bool.false_eq_true, false_iff, true_iff, not_not] <;> omega
+
+theorem overflowingSub_spec {w n : Nat} {a b : List Nat} (ha : WF w n a) (hb : WF w n b) :
+    OvfU w n (overflowingSub w a b) ((U w a : Int) - U w b) := by
+  obtain ⟨h1, h2⟩ := subLoop_spec n a b false ha hb
+  unfold overflowingSub
+  have hr := U_lt h1; have hua := U_lt ha; have hub := U_lt hb
+  refine ⟨h1, ?_, ?_⟩
+  · rw [← U_eq_wrapU h1 (k := -((subLoop w a b false).2.toNat : Int))]
+    have : ((U w (subLoop w a b false).1 : Int) + U w b + (false.toNat : Int)
+        = U w a + (M w n : Int) * ((subLoop w a b false).2.toNat : Int)) := by exact_mod_cast h2
+    simp only [Bool.toNat_false, Nat.cast_zero, add_zero] at this
+    linear_combination (-1 : Int) * this
+  · apply bool_eq_decide
+    unfold repU
+    cases hf : (subLoop w a b false).2 <;> rw [hf] at h2 <;>
+      simp only [Bool.toNat_false, Bool.toNat_true, Nat.mul_zero, Nat.mul_one, Nat.add_zero] at h2 <;>
+      simp only [Bool.false_eq_true, false_iff, true_iff, not_not] <;> omega
+
+theorem overflowingNeg_spec {w n : Nat} {a : List Nat} (hw : 1 ≤ w) (hn : 1 ≤ n) (ha : WF w n a) :
+    OvfU w n (overflowingNeg w a) (-(U w a : Int)) := by
+  obtain ⟨h1, h2, h3⟩ := overflowingAdd_spec (WF_bnot ha) (WF_one hw hn)
+  unfold overflowingNeg
+  rw [ha.1]
+  have hua := U_lt ha
+  have hr := U_lt h1
+  rw [U_bnot ha, U_one hn] at h2 h3
+  have e : ((M w n - 1 - U w a : Nat) : Int) + (1 : Nat) = (M w n : Int) - U w a := by
+    push_cast [show U w a ≤ M w n - 1 by omega, show 1 ≤ M w n by omega]; ring
+  rw [e] at h2 h3
+  refine ⟨h1, ?_, ?_⟩
+  · rw [h2, ← wrapU_add_mul (-(U w a : Int)) 1]; congr 2; ring
+  · simp only; rw [h3]
+    apply not_decide
+    unfold repU; omega
+
+theorem overflowingAddSigned_spec {w n : Nat} {a b : List Nat} (hw : 1 ≤ w) (hn : 1 ≤ n)
+    (ha : WF w n a) (hb : WF w n b) :
+    OvfU w n (overflowingAddSigned w a b) (U w a + S w b) := by
+  obtain ⟨h1, h2, h3⟩ := overflowingAdd_spec ha hb
+  unfold overflowingAddSigned
+  have hua := U_lt ha; have hub := U_lt hb
+  obtain ⟨k, hk⟩ := S_spec hb
+  refine ⟨h1, ?_, ?_⟩
+  · rw [h2, hk, ← wrapU_add_mul ((U w a : Int) + U w b) k]; congr 2; ring
+  · simp only; rw [h3, isNegative_eq_decide hw hn hb]
+    apply bne_decide
+    have hS : (S w b < 0 ∧ S w b = (U w b : Int) - M w n) ∨ (0 ≤ S w b ∧ S w b = U w b) := by
+      by_cases h : S w b < 0
+      · exact Or.inl ⟨h, S_of_neg hb h⟩
+      · exact Or.inr ⟨by omega, S_of_nonneg hb (by omega)⟩
+    unfold repU; omega
+
+theorem carryingAdd_spec {w n : Nat} {a b : List Nat} (hw : 1 ≤ w) (hn : 1 ≤ n)
+    (ha : WF w n a) (hb : WF w n b) (c : Bool) :
+    OvfU w n (carryingAdd w a b c) ((U w a : Int) + U w b + c.toNat) := by
+  obtain ⟨h1, h2, h3⟩ := overflowingAdd_spec ha hb
+  unfold carryingAdd
+  cases c
+  · simpa using overflowingAdd_spec ha hb
+  · simp only [if_true, Bool.toNat_true, Nat.cast_one]
+    rw [ha.1]
+    obtain ⟨g1, g2, g3⟩ := overflowingAdd_spec h1 (WF_one hw hn)
+    rw [U_one hn] at g2 g3
+    have hua := U_lt ha; have hub := U_lt hb
+    have hc := wrapU_cases_add (m := M w n) (t := (U w a : Int) + U w b) (by omega) (by omega)
+    refine ⟨g1, ?_, ?_⟩
+    · rw [g2, h2, wrapU_wrapU_add (M_pos w n)]; rfl
+    · simp only; rw [h3, g3, h2]
+      apply xor_decide
+      unfold repU; push_cast; omega
+
+theorem borrowingSub_spec {w n : Nat} {a b : List Nat} (hw : 1 ≤ w) (hn : 1 ≤ n)
+    (ha : WF w n a) (hb : WF w n b) (c : Bool) :
+    OvfU w n (borrowingSub w a b c) ((U w a : Int) - U w b - c.toNat) := by
+  obtain ⟨h1, h2, h3⟩ := overflowingSub_spec ha hb
+  unfold borrowingSub
+  cases c
+  · simpa using overflowingSub_spec ha hb
+  · simp only [if_true, Bool.toNat_true, Nat.cast_one]
+    rw [ha.1]
+    obtain ⟨g1, g2, g3⟩ := overflowingSub_spec h1 (WF_one hw hn)
+    rw [U_one hn] at g2 g3
+    have hua := U_lt ha; have hub := U_lt hb
+    have hc := wrapU_cases_sub (m := M w n) (t := (U w a : Int) - U w b) (by omega) (by omega)
+    refine ⟨g1, ?_, ?_⟩
+    · rw [g2, h2, sub_eq_add_neg, wrapU_wrapU_add (M_pos w n)]; rfl
+    · simp only; rw [h3, g3, h2]
+      apply xor_decide
+      unfold repU; push_cast; omega
+
+end UI
+/-! ### signed operations -/
+
+theorem S_cases {w n : Nat} {x : List Nat} (hx : WF w n x) :
+    (S w x < 0 ∧ S w x = (U w x : Int) - M w n) ∨ (0 ≤ S w x ∧ S w x = U w x) := by
+  by_cases h : S w x < 0
+  · exact Or.inl ⟨h, S_of_neg hx h⟩
+  · exact Or.inr ⟨by omega, S_of_nonneg hx (by omega)⟩
+
+namespace II
+
+theorem overflowingAdd_spec {w n : Nat} {a b : List Nat} (hw : 2 ≤ w) (hn : 1 ≤ n)
+    (ha : WF w n a) (hb : WF w n b) : OvfS w n (overflowingAdd w a b) (S w a + S w b) := by
+  obtain ⟨k, rfl⟩ : ∃ k, n = k + 1 := ⟨n - 1, by omega⟩
+  obtain ⟨h1, h2, h3⟩ := addLoop_spec hw k a b false ha hb
+  unfold overflowingAdd
+  refine ⟨h1, ?_, ?_⟩
+  · obtain ⟨q, hq⟩ := exists_of_mod h2
+    obtain ⟨ka, hka⟩ := S_spec ha; obtain ⟨kb, hkb⟩ := S_spec hb
+    apply S_eq_wrapS h1 (k := q + ka + kb)
+    simp only [Bool.toNat_false, Nat.add_zero] at hq
+    push_cast at hq
+    rw [hka, hkb]; linear_combination hq
+  · rw [h3]; simp
+
+theorem overflowingSub_spec {w n : Nat} {a b : List Nat} (hw : 2 ≤ w) (hn : 1 ≤ n)
+    (ha : WF w n a) (hb : WF w n b) : OvfS w n (overflowingSub w a b) (S w a - S w b) := by
+  obtain ⟨k, rfl⟩ : ∃ k, n = k + 1 := ⟨n - 1, by omega⟩
+  obtain ⟨h1, h2, h3⟩ := subLoop_spec hw k a b false ha hb
+  unfold overflowingSub
+  refine ⟨h1, ?_, ?_⟩
+  · obtain ⟨q, hq⟩ := exists_of_emod h2
+    obtain ⟨ka, hka⟩ := S_spec ha; obtain ⟨kb, hkb⟩ := S_spec hb
+    apply S_eq_wrapS h1 (k := q + ka - kb)
+    simp only [Bool.toNat_false, Nat.cast_zero, sub_zero] at hq
+    rw [hka, hkb]; linear_combination hq
+  · rw [h3]; simp
+
+theorem overflowingNeg_spec {w n : Nat} {a : List Nat} (hw : 2 ≤ w) (hn : 1 ≤ n)
+    (ha : WF w n a) : OvfS w n (overflowingNeg w a) (- S w a) := by
+  obtain ⟨k, rfl⟩ : ∃ k, n = k + 1 := ⟨n - 1, by omega⟩
+  obtain ⟨h1, h2, h3⟩ := negLoop_spec hw k a ha
+  unfold overflowingNeg
+  refine ⟨h1, ?_, h3⟩
+  obtain ⟨q, hq⟩ := exists_of_mod h2
+  obtain ⟨ka, hka⟩ := S_spec ha
+  have hua := U_lt ha
+  apply S_eq_wrapS h1 (k := q - ka - 1)
+  push_cast [show U w a ≤ M w (k + 1) by omega] at hq
+  rw [hka]; linear_combination hq
+
+theorem overflowingAbs_spec {w n : Nat} {a : List Nat} (hw : 2 ≤ w) (hn : 1 ≤ n)
+    (ha : WF w n a) : OvfS w n (overflowingAbs w a) ((S w a).natAbs : Int) := by
+  unfold overflowingAbs
+  by_cases hN : isNegative w a = true
+  · rw [if_pos hN]
+    have := (isNegative_iff' (by omega) hn ha).1 hN
+    rw [show ((S w a).natAbs : Int) = - S w a by omega]
+    exact overflowingNeg_spec hw hn ha
+  · rw [if_neg hN]
+    have := (isNegative_false_iff (by omega) hn ha).1 (by simpa using hN)
+    rw [show ((S w a).natAbs : Int) = S w a by omega]
+    have hr := S_repS (show 1 ≤ w by omega) hn ha
+    exact ⟨ha, (wrapS_of_rep (M_pos w n) hr).symm, by simp [hr]⟩
+
+theorem overflowingAddUnsigned_spec {w n : Nat} {a b : List Nat} (hw : 2 ≤ w) (hn : 1 ≤ n)
+    (ha : WF w n a) (hb : WF w n b) :
+    OvfS w n (overflowingAddUnsigned w a b) (S w a + U w b) := by
+  obtain ⟨h1, h2, h3⟩ := overflowingAdd_spec hw hn ha hb
+  unfold overflowingAddUnsigned
+  obtain ⟨kb, hkb⟩ := S_spec hb
+  refine ⟨h1, ?_, ?_⟩
+  · rw [h2, hkb, ← wrapS_add_mul (S w a + (U w b : Int)) kb]; congr 1; ring
+  · simp only; rw [h3, isNegative_eq_decide (by omega) hn hb]
+    apply bne_decide
+    have hS := S_cases hb
+    have hra := S_repS (show 1 ≤ w by omega) hn ha
+    have hub := U_lt hb
+    have hm := M_even (show 1 ≤ w by omega) hn
+    unfold repS at *; omega
+
+theorem overflowingSubUnsigned_spec {w n : Nat} {a b : List Nat} (hw : 2 ≤ w) (hn : 1 ≤ n)
+    (ha : WF w n a) (hb : WF w n b) :
+    OvfS w n (overflowingSubUnsigned w a b) (S w a - U w b) := by
+  obtain ⟨h1, h2, h3⟩ := overflowingSub_spec hw hn ha hb
+  unfold overflowingSubUnsigned
+  obtain ⟨kb, hkb⟩ := S_spec hb
+  refine ⟨h1, ?_, ?_⟩
+  · rw [h2, hkb, ← wrapS_add_mul (S w a - (U w b : Int)) (-kb)]; congr 1; ring
+  · simp only; rw [h3, isNegative_eq_decide (by omega) hn hb]
+    apply bne_decide
+    have hS := S_cases hb
+    have hra := S_repS (show 1 ≤ w by omega) hn ha
+    have hub := U_lt hb
+    have hm := M_even (show 1 ≤ w by omega) hn
+    unfold repS at *; omega
+
+theorem carryingAdd_spec {w n : Nat} {a b : List Nat} (hw : 2 ≤ w) (hn : 1 ≤ n)
+    (ha : WF w n a) (hb : WF w n b) (c : Bool) :
+    OvfS w n (carryingAdd w a b c) (S w a + S w b + c.toNat) := by
+  obtain ⟨h1, h2, h3⟩ := overflowingAdd_spec hw hn ha hb
+  unfold carryingAdd
+  cases c
+  · simpa using overflowingAdd_spec hw hn ha hb
+  · simp only [if_true, Bool.toNat_true, Nat.cast_one]
+    rw [ha.1]
+    obtain ⟨g1, g2, g3⟩ := overflowingAdd_spec hw hn h1 (WF_one (by omega) hn)
+    rw [S_one hw hn] at g2 g3
+    have hra := S_repS (show 1 ≤ w by omega) hn ha
+    have hrb := S_repS (show 1 ≤ w by omega) hn hb
+    have hm := M_even (show 1 ≤ w by omega) hn
+    have hc := wrapS_cases (t := S w a + S w b) hm (M_pos w n)
+      (by unfold repS at *; omega) (by unfold repS at *; omega)
+    refine ⟨g1, ?_, ?_⟩
+    · rw [g2, h2, wrapS_wrapS_add (M_pos w n)]
+    · simp only; rw [h3, g3, h2]
+      apply xor_decide
+      unfold repS at *; omega
+
+theorem borrowingSub_spec {w n : Nat} {a b : List Nat} (hw : 2 ≤ w) (hn : 1 ≤ n)
+    (ha : WF w n a) (hb : WF w n b) (c : Bool) :
+    OvfS w n (borrowingSub w a b c) (S w a - S w b - c.toNat) := by
+  obtain ⟨h1, h2, h3⟩ := overflowingSub_spec hw hn ha hb
+  unfold borrowingSub
+  cases c
+  · simpa using overflowingSub_spec hw hn ha hb
+  · simp only [if_true, Bool.toNat_true, Nat.cast_one]
+    rw [ha.1]
+    obtain ⟨g1, g2, g3⟩ := overflowingSub_spec hw hn h1 (WF_one (by omega) hn)
+    rw [S_one hw hn] at g2 g3
+    have hra := S_repS (show 1 ≤ w by omega) hn ha
+    have hrb := S_repS (show 1 ≤ w by omega) hn hb
+    have hm := M_even (show 1 ≤ w by omega) hn
+    have hc := wrapS_cases (t := S w a - S w b) hm (M_pos w n)
+      (by unfold repS at *; omega) (by unfold repS at *; omega)
+    refine ⟨g1, ?_, ?_⟩
+    · rw [g2, h2, sub_eq_add_neg, wrapS_wrapS_add (M_pos w n)]; rfl
+    · simp only; rw [h3, g3, h2]
+      apply xor_decide
+      unfold repS at *; omega
+
+theorem unsignedAbs_spec {w n : Nat} {a : List Nat} (hw : 2 ≤ w) (hn : 1 ≤ n) (ha : WF w n a) :
+    WF w n (unsignedAbs w a) ∧ U w (unsignedAbs w a) = (S w a).natAbs := by
+  unfold unsignedAbs
+  by_cases hN : isNegative w a = true
+  · rw [if_pos hN]
+    have hneg := (isNegative_iff' (by omega) hn ha).1 hN
+    obtain ⟨k, rfl⟩ : ∃ k, n = k + 1 := ⟨n - 1, by omega⟩
+    obtain ⟨h1, h2, _⟩ := negLoop_spec hw k a ha
+    unfold wrappingNeg overflowingNeg
+    refine ⟨h1, ?_⟩
+    have hs := S_of_neg ha hneg
+    have hua := U_lt ha
+    have hra := S_repS (show 1 ≤ w by omega) (show 1 ≤ k + 1 by omega) ha
+    unfold repS at hra
+    rw [h2, Nat.mod_eq_of_lt (by omega)]
+    omega
+  · rw [if_neg hN]
+    have := (isNegative_false_iff (by omega) hn ha).1 (by simpa using hN)
+    have hs := S_of_nonneg ha this
+    exact ⟨ha, by omega⟩
+
+end II
+
+/-! ### projections: checked / strict / wrapping / saturating -/
+
+theorem tupleToOption_none_iff {α : Type} (p : α × Bool) : tupleToOption p = none ↔ p.2 = true := by
+  unfold tupleToOption; cases p.2 <;> simp
+
+theorem tupleToOption_some_iff {α : Type} (p : α × Bool) (r : α) :
+    tupleToOption p = some r ↔ p.2 = false ∧ p.1 = r := by
+  unfold tupleToOption; cases p.2 <;> simp
+
+theorem expect_panic_iff {α : Type} (o : Option α) : Outcome.expect o = Outcome.panic ↔ o = none := by
+  cases o <;> simp [Outcome.expect]
+
+theorem expect_ok_iff {α : Type} (o : Option α) (r : α) :
+    Outcome.expect o = Outcome.ok r ↔ o = some r := by
+  cases o <;> simp [Outcome.expect]
+
+/-- the published shape of an unsigned-result overflowing theorem -/
+theorem OvfU.expand {w n : Nat} {p : List Nat × Bool} {z : Int} (h : OvfU w n p z) :
+    WF w n p.1 ∧ (U w p.1 : Int) = wrapU (M w n) z ∧ (p.2 = true ↔ ¬ repU (M w n) z) :=
+  ⟨h.1, h.2.1, h.flag_iff⟩
+theorem OvfS.expand {w n : Nat} {p : List Nat × Bool} {z : Int} (h : OvfS w n p z) :
+    WF w n p.1 ∧ S w p.1 = wrapS (M w n) z ∧ (p.2 = true ↔ ¬ repS (M w n) z) :=
+  ⟨h.1, h.2.1, h.flag_iff⟩
+
+theorem OvfU.checked {w n : Nat} {p : List Nat × Bool} {z : Int} (h : OvfU w n p z) :
+    (tupleToOption p = none ↔ ¬ repU (M w n) z) ∧
+    (∀ r, tupleToOption p = some r → WF w n r ∧ (U w r : Int) = z) := by
+  refine ⟨by rw [tupleToOption_none_iff, h.flag_iff], ?_⟩
+  intro r hr
+  rw [tupleToOption_some_iff] at hr
+  obtain ⟨hf, rfl⟩ := hr
+  have : repU (M w n) z := by
+    have := h.flag_iff; rw [hf] at this; simpa using this
+  exact ⟨h.1, by rw [h.2.1, wrapU_of_rep this]⟩
+
+theorem OvfS.checked {w n : Nat} {p : List Nat × Bool} {z : Int} (h : OvfS w n p z) :
+    (tupleToOption p = none ↔ ¬ repS (M w n) z) ∧
+    (∀ r, tupleToOption p = some r → WF w n r ∧ S w r = z) := by
+  refine ⟨by rw [tupleToOption_none_iff, h.flag_iff], ?_⟩
+  intro r hr
+  rw [tupleToOption_some_iff] at hr
+  obtain ⟨hf, rfl⟩ := hr
+  have : repS (M w n) z := by
+    have := h.flag_iff; rw [hf] at this; simpa using this
+  exact ⟨h.1, by rw [h.2.1, wrapS_of_rep (M_pos w n) this]⟩
+
+theorem OvfU.strict {w n : Nat} {p : List Nat × Bool} {z : Int} (h : OvfU w n p z) :
+    (Outcome.expect (tupleToOption p) = Outcome.panic ↔ ¬ repU (M w n) z) ∧
+    (∀ r, Outcome.expect (tupleToOption p) = Outcome.ok r → WF w n r ∧ (U w r : Int) = z) :=
+  ⟨by rw [expect_panic_iff]; exact h.checked.1,
+   fun r hr => h.checked.2 r ((expect_ok_iff _ _).1 hr)⟩
+
+theorem OvfS.strict {w n : Nat} {p : List Nat × Bool} {z : Int} (h : OvfS w n p z) :
+    (Outcome.expect (tupleToOption p) = Outcome.panic ↔ ¬ repS (M w n) z) ∧
+    (∀ r, Outcome.expect (tupleToOption p) = Outcome.ok r → WF w n r ∧ S w r = z) :=
+  ⟨by rw [expect_panic_iff]; exact h.checked.1,
+   fun r hr => h.checked.2 r ((expect_ok_iff _ _).1 hr)⟩
+
+theorem OvfU.wrapping {w n : Nat} {p : List Nat × Bool} {z : Int} (h : OvfU w n p z) :
+    WF w n p.1 ∧ (U w p.1 : Int) = wrapU (M w n) z := ⟨h.1, h.2.1⟩
+theorem OvfS.wrapping {w n : Nat} {p : List Nat × Bool} {z : Int} (h : OvfS w n p z) :
+    WF w n p.1 ∧ S w p.1 = wrapS (M w n) z := ⟨h.1, h.2.1⟩
+
+/-! clamp facts -/
+theorem clampU_of_rep {m : Nat} {z : Int} (h : repU m z) : Spec.clamp false m z = z := by
+  unfold repU at h
+  simp only [Spec.clamp, Spec.minV, Spec.maxV, Bool.false_eq_true, if_false]
+  split_ifs <;> omega
+theorem clampU_hi {m : Nat} {z : Int} (h : (m : Int) ≤ z) : Spec.clamp false m z = (m : Int) - 1 := by
+  simp only [Spec.clamp, Spec.minV, Spec.maxV, Bool.false_eq_true, if_false]
+  split_ifs <;> omega
+theorem clampU_lo {m : Nat} {z : Int} (h : z < 0) : Spec.clamp false m z = 0 := by
+  simp only [Spec.clamp, Spec.minV, Spec.maxV, Bool.false_eq_true, if_false]
+  split_ifs; omega
+theorem clampS_of_rep {m : Nat} {z : Int} (he : m = 2 * (m / 2)) (h : repS m z) :
+    Spec.clamp true m z = z := by
+  unfold repS at h
+  simp only [Spec.clamp, Spec.minV, Spec.maxV, if_true]
+  split_ifs <;> omega
+theorem clampS_hi {m : Nat} {z : Int} (he : m = 2 * (m / 2)) (h : (m : Int) ≤ 2 * z) :
+    Spec.clamp true m z = ((m / 2 : Nat) : Int) - 1 := by
+  simp only [Spec.clamp, Spec.minV, Spec.maxV, if_true]
+  split_ifs <;> omega
+theorem clampS_lo {m : Nat} {z : Int} (he : m = 2 * (m / 2)) (h : 2 * z < -(m : Int)) :
+    Spec.clamp true m z = -((m / 2 : Nat) : Int) := by
+  simp only [Spec.clamp, Spec.minV, Spec.maxV, if_true]
+  split_ifs <;> omega
+
+namespace UI
+theorem saturateUp_spec {w n : Nat} {p : List Nat × Bool} {z : Int} (h : OvfU w n p z)
+    (hz : 0 ≤ z) :
+    WF w n (saturateUp w n p) ∧ (U w (saturateUp w n p) : Int) = Spec.clamp false (M w n) z := by
+  unfold saturateUp
+  have hM := M_pos w n
+  cases hf : p.2
+  · have hr : repU (M w n) z := by have := h.flag_iff; rw [hf] at this; simpa using this
+    simp only [Bool.false_eq_true, if_false]
+    exact ⟨h.1, by rw [h.2.1, wrapU_of_rep hr, clampU_of_rep hr]⟩
+  · have hr : ¬ repU (M w n) z := h.flag_iff.1 hf
+    simp only [if_true]
+    refine ⟨WF_allOnes w n, ?_⟩
+    rw [U_allOnes, clampU_hi (by unfold repU at hr; omega)]; omega
+
+theorem saturateDown_spec {w n : Nat} {p : List Nat × Bool} {z : Int} (h : OvfU w n p z)
+    (hz : z < M w n) :
+    WF w n (saturateDown n p) ∧ (U w (saturateDown n p) : Int) = Spec.clamp false (M w n) z := by
+  unfold saturateDown
+  cases hf : p.2
+  · have hr : repU (M w n) z := by have := h.flag_iff; rw [hf] at this; simpa using this
+    simp only [Bool.false_eq_true, if_false]
+    exact ⟨h.1, by rw [h.2.1, wrapU_of_rep hr, clampU_of_rep hr]⟩
+  · have hr : ¬ repU (M w n) z := h.flag_iff.1 hf
+    simp only [if_true]
+    refine ⟨WF_zero w n, ?_⟩
+    rw [U_zero, clampU_lo (by unfold repU at hr; omega)]; rfl
+
+theorem saturatingAdd_spec {w n : Nat} {a b : List Nat} (ha : WF w n a) (hb : WF w n b) :
+    WF w n (saturatingAdd w a b) ∧
+    (U w (saturatingAdd w a b) : Int) = Spec.clamp false (M w n) (U w a + U w b) := by
+  unfold saturatingAdd; rw [ha.1]
+  exact saturateUp_spec (overflowingAdd_spec ha hb) (by omega)
+
+theorem saturatingSub_spec {w n : Nat} {a b : List Nat} (ha : WF w n a) (hb : WF w n b) :
+    WF w n (saturatingSub w a b) ∧
+    (U w (saturatingSub w a b) : Int) = Spec.clamp false (M w n) ((U w a : Int) - U w b) := by
+  unfold saturatingSub; rw [ha.1]
+  have := U_lt ha
+  exact saturateDown_spec (overflowingSub_spec ha hb) (by omega)
+
+theorem saturatingAddSigned_spec {w n : Nat} {a b : List Nat} (hw : 1 ≤ w) (hn : 1 ≤ n)
+    (ha : WF w n a) (hb : WF w n b) :
+    WF w n (saturatingAddSigned w a b) ∧
+    (U w (saturatingAddSigned w a b) : Int) = Spec.clamp false (M w n) (U w a + S w b) := by
+  unfold saturatingAddSigned; rw [ha.1]
+  have := U_lt ha
+  by_cases hN : isNegative w b = true
+  · rw [if_pos hN]
+    have := (isNegative_iff' hw hn hb).1 hN
+    exact saturateDown_spec (overflowingAddSigned_spec hw hn ha hb) (by omega)
+  · rw [if_neg hN]
+    have := (isNegative_false_iff hw hn hb).1 (by simpa using hN)
+    exact saturateUp_spec (overflowingAddSigned_spec hw hn ha hb) (by omega)
+end UI
+
+namespace II
+
+/-- generic signed saturation: `d` is the bound on the side where a non-representable `z` lies -/
+theorem saturate_spec {w n : Nat} {p : List Nat × Bool} {z : Int} (hw : 1 ≤ w) (hn : 1 ≤ n)
+    (h : OvfS w n p z) {d : List Nat} (hd : WF w n d)
+    (hside : ¬ repS (M w n) z → S w d = Spec.clamp true (M w n) z) (x : List Nat)
+    (hx : x = match tupleToOption p with | some r => r | none => d) :
+    WF w n x ∧ S w x = Spec.clamp true (M w n) z := by
+  subst hx
+  split
+  · rename_i r heq
+    obtain ⟨h1, h2⟩ := h.checked.2 r heq
+    have hr : repS (M w n) z := by rw [← h2]; exact S_repS hw hn h1
+    exact ⟨h1, by rw [h2, clampS_of_rep (M_even hw hn) hr]⟩
+  · rename_i heq
+    exact ⟨hd, hside (h.checked.1.1 heq)⟩
+
+
+theorem saturatingAdd_spec {w n : Nat} {a b : List Nat} (hw : 2 ≤ w) (hn : 1 ≤ n)
+    (ha : WF w n a) (hb : WF w n b) :
+    WF w n (saturatingAdd w a b) ∧
+    S w (saturatingAdd w a b) = Spec.clamp true (M w n) (S w a + S w b) := by
+  have hw1 : 1 ≤ w := by omega
+  have hra := S_repS hw1 hn ha; have hrb := S_repS hw1 hn hb
+  have hm := M_even hw1 hn
+  by_cases hN : isNegative w a = true
+  · have hs := (isNegative_iff' hw1 hn ha).1 hN
+    refine saturate_spec hw1 hn (overflowingAdd_spec hw hn ha hb) (WF_iMin hw1 hn) ?_ _
+      (by unfold saturatingAdd checkedAdd; rw [if_pos hN, ha.1]; rfl)
+    intro hr
+    rw [S_iMin hw1 hn, clampS_lo hm (by unfold repS at *; omega)]
+  · have hs := (isNegative_false_iff hw1 hn ha).1 (by simpa using hN)
+    refine saturate_spec hw1 hn (overflowingAdd_spec hw hn ha hb) (WF_iMax hw1 hn) ?_ _
+      (by unfold saturatingAdd checkedAdd; rw [if_neg hN, ha.1]; rfl)
+    intro hr
+    rw [S_iMax hw1 hn, clampS_hi hm (by unfold repS at *; omega)]
+
+theorem saturatingSub_spec {w n : Nat} {a b : List Nat} (hw : 2 ≤ w) (hn : 1 ≤ n)
+    (ha : WF w n a) (hb : WF w n b) :
+    WF w n (saturatingSub w a b) ∧
+    S w (saturatingSub w a b) = Spec.clamp true (M w n) (S w a - S w b) := by
+  have hw1 : 1 ≤ w := by omega
+  have hra := S_repS hw1 hn ha; have hrb := S_repS hw1 hn hb
+  have hm := M_even hw1 hn
+  by_cases hN : isNegative w a = true
+  · have hs := (isNegative_iff' hw1 hn ha).1 hN
+    refine saturate_spec hw1 hn (overflowingSub_spec hw hn ha hb) (WF_iMin hw1 hn) ?_ _
+      (by unfold saturatingSub checkedSub; rw [if_pos hN, ha.1]; rfl)
+    intro hr
+    rw [S_iMin hw1 hn, clampS_lo hm (by unfold repS at *; omega)]
+  · have hs := (isNegative_false_iff hw1 hn ha).1 (by simpa using hN)
+    refine saturate_spec hw1 hn (overflowingSub_spec hw hn ha hb) (WF_iMax hw1 hn) ?_ _
+      (by unfold saturatingSub checkedSub; rw [if_neg hN, ha.1]; rfl)
+    intro hr
+    rw [S_iMax hw1 hn, clampS_hi hm (by unfold repS at *; omega)]
+
+theorem saturatingAddUnsigned_spec {w n : Nat} {a b : List Nat} (hw : 2 ≤ w) (hn : 1 ≤ n)
+    (ha : WF w n a) (hb : WF w n b) :
+    WF w n (saturatingAddUnsigned w a b) ∧
+    S w (saturatingAddUnsigned w a b) = Spec.clamp true (M w n) (S w a + U w b) := by
+  have hw1 : 1 ≤ w := by omega
+  have hra := S_repS hw1 hn ha
+  have hm := M_even hw1 hn
+  refine saturate_spec hw1 hn (overflowingAddUnsigned_spec hw hn ha hb) (WF_iMax hw1 hn) ?_ _
+    (by unfold saturatingAddUnsigned checkedAddUnsigned; rw [ha.1]; rfl)
+  intro hr
+  rw [S_iMax hw1 hn, clampS_hi hm (by unfold repS at *; omega)]
+
+theorem saturatingSubUnsigned_spec {w n : Nat} {a b : List Nat} (hw : 2 ≤ w) (hn : 1 ≤ n)
+    (ha : WF w n a) (hb : WF w n b) :
+    WF w n (saturatingSubUnsigned w a b) ∧
+    S w (saturatingSubUnsigned w a b) = Spec.clamp true (M w n) (S w a - U w b) := by
+  have hw1 : 1 ≤ w := by omega
+  have hra := S_repS hw1 hn ha
+  have hm := M_even hw1 hn
+  refine saturate_spec hw1 hn (overflowingSubUnsigned_spec hw hn ha hb) (WF_iMin hw1 hn) ?_ _
+    (by unfold saturatingSubUnsigned checkedSubUnsigned; rw [ha.1]; rfl)
+  intro hr
+  rw [S_iMin hw1 hn, clampS_lo hm (by unfold repS at *; omega)]
+
+theorem saturatingNeg_spec {w n : Nat} {a : List Nat} (hw : 2 ≤ w) (hn : 1 ≤ n)
+    (ha : WF w n a) :
+    WF w n (saturatingNeg w a) ∧
+    S w (saturatingNeg w a) = Spec.clamp true (M w n) (- S w a) := by
+  have hw1 : 1 ≤ w := by omega
+  have hra := S_repS hw1 hn ha
+  have hm := M_even hw1 hn
+  refine saturate_spec hw1 hn (overflowingNeg_spec hw hn ha) (WF_iMax hw1 hn) ?_ _
+    (by unfold saturatingNeg checkedNeg; rw [ha.1]; rfl)
+  intro hr
+  rw [S_iMax hw1 hn, clampS_hi hm (by unfold repS at *; omega)]
+
+theorem saturatingAbs_spec {w n : Nat} {a : List Nat} (hw : 2 ≤ w) (hn : 1 ≤ n)
+    (ha : WF w n a) :
+    WF w n (saturatingAbs w a) ∧
+    S w (saturatingAbs w a) = Spec.clamp true (M w n) ((S w a).natAbs : Int) := by
+  have hw1 : 1 ≤ w := by omega
+  have hra := S_repS hw1 hn ha
+  have hm := M_even hw1 hn
+  refine saturate_spec hw1 hn (overflowingAbs_spec hw hn ha) (WF_iMax hw1 hn) ?_ _
+    (by unfold saturatingAbs checkedAbs; rw [ha.1]; rfl)
+  intro hr
+  rw [S_iMax hw1 hn, clampS_hi hm (by unfold repS at *; omega)]
+
+/-- `BInt::wrapping_add` goes through the unsigned adder on the bit patterns -/
+theorem wrappingAdd_spec {w n : Nat} {a b : List Nat} (ha : WF w n a) (hb : WF w n b) :
+    WF w n (wrappingAdd w a b) ∧ S w (wrappingAdd w a b) = wrapS (M w n) (S w a + S w b) := by
+  obtain ⟨h1, h2, _⟩ := UI.overflowingAdd_spec ha hb
+  unfold wrappingAdd UI.wrappingAdd
+  refine ⟨h1, ?_⟩
+  obtain ⟨ka, hka⟩ := S_spec ha; obtain ⟨kb, hkb⟩ := S_spec hb
+  obtain ⟨q, hq⟩ := wrapU_spec (M_pos w n) ((U w a : Int) + U w b)
+  rw [← h2] at hq
+  apply S_eq_wrapS h1 (k := q + ka + kb)
+  rw [hka, hkb]; linear_combination hq
+
+theorem wrappingSub_spec {w n : Nat} {a b : List Nat} (ha : WF w n a) (hb : WF w n b) :
+    WF w n (wrappingSub w a b) ∧ S w (wrappingSub w a b) = wrapS (M w n) (S w a - S w b) := by
+  obtain ⟨h1, h2, _⟩ := UI.overflowingSub_spec ha hb
+  unfold wrappingSub UI.wrappingSub
+  refine ⟨h1, ?_⟩
+  obtain ⟨ka, hka⟩ := S_spec ha; obtain ⟨kb, hkb⟩ := S_spec hb
+  obtain ⟨q, hq⟩ := wrapU_spec (M_pos w n) ((U w a : Int) - U w b)
+  rw [← h2] at hq
+  apply S_eq_wrapS h1 (k := q + ka - kb)
+  rw [hka, hkb]; linear_combination hq
+
+end II
+
+/-! ### `BUint::checked_neg` as written in Rust (`is_zero` test) -/
+theorem isZero_iff {w : Nat} (x : List Nat) : isZero x = true ↔ U w x = 0 := by
+  induction x with
+  | nil => simp [isZero]
+  | cons d ds ih =>
+    have hB := B_pos w
+    unfold isZero
+    by_cases hd : d = 0
+    · subst hd
+      simp only [bne_self_eq_false, Bool.false_eq_true, if_false, U_cons, Nat.zero_add, ih]
+      constructor
+      · intro h; rw [h]; rfl
+      · intro h; rcases Nat.mul_eq_zero.1 h with h | h <;> omega
+    · have : (d != 0) = true := by simpa using hd
+      simp only [this, if_true, U_cons, Bool.false_eq_true, false_iff]
+      omega
+
+/-- the model's `UI.checkedNeg` (projection of `overflowing_neg`) agrees with the Rust body
+    `if self.is_zero() { Some(self) } else { None }` -/
+theorem UI.checkedNeg_eq_isZero {w n : Nat} {a : List Nat} (hw : 1 ≤ w) (hn : 1 ≤ n)
+    (ha : WF w n a) : UI.checkedNeg w a = if isZero a then some a else none := by
+  have h := UI.overflowingNeg_spec hw hn ha
+  have hc := h.checked
+  unfold UI.checkedNeg
+  by_cases hz : isZero a = true
+  · rw [if_pos hz]
+    have hu := (isZero_iff (w := w) a).1 hz
+    have hr : repU (M w n) (-(U w a : Int)) := by
+      unfold repU; have := M_pos w n; omega
+    cases hres : tupleToOption (UI.overflowingNeg w a) with
+    | none => exact absurd hr (hc.1.1 hres)
+    | some r =>
+      obtain ⟨h1, h2⟩ := hc.2 r hres
+      rw [U_injective h1 ha (by omega)]
+  · rw [if_neg hz]
+    have hu : U w a ≠ 0 := fun h => hz ((isZero_iff (w := w) a).2 h)
+    exact hc.1.2 (by unfold repU; omega)
+
 end Bnum
